@@ -1,4 +1,4 @@
 From Coq Require Extraction.
 From Coq Require Import ExtrOcamlBasic.
 From Tickit Require Import OutBufDefs OutBufSpec.
-Extraction "mC11.ml" init run check stream.
+Extraction "mC11.ml" init run check stream_to.
